@@ -1,4 +1,5 @@
 import CnlProofs.Scaled
+import CnlProofs.WideCmp
 /-!
 # C03 — `scaled_integer` comparisons agree with the order of the denoted values
 
@@ -23,6 +24,30 @@ its promoted representation type.
   are the six relations between one pair of integers, so exactly one of `<`, `==`, `>` holds.
 * `cmp_builtin_operand` — comparing with a built-in integer is comparing with that integer wrapped
   at exponent 0.
+
+## `wide_integer` operands of different types (second part of the file)
+
+Comparisons of two `wide_integer`s of the *same* type are C10's (`Cnl.C10.comparisons`: every limb width, limb
+count, signedness).  Two *different* `wide_integer` types go through `wide_integer/custom_operator.h`, modelled
+in `CnlModel/WideCmp.lean` (`Wide.wideCmp`, `Wide.cmpMixed`): since the repair, two multi-limb representations of
+different widths are both `static_cast` to the wider one (`Wide.widenCtor` = `uintwide_t`'s converting constructor,
+transcribed limb by limb) and compared there.
+
+* `wide_widening_keeps_value` — the converting constructor keeps the value, for every limb width and limb counts.
+* `wide_mixed_width_by_value` — all six operators on operands of **any two limb counts** (same limb type and
+  signedness — the pairs of instantiations that exist for every pair of widths) return the relation between the
+  two integers; `wide_mixed_width_symmetric` — so `a OP b` and the mirrored `b OP' a` agree.
+* `wide_mixed_width_values` — the same through `wide_tag`'s storage rule, on the values: for all digit counts
+  `dl`, `dr` with multi-limb storage and all values of the two storage ranges.
+* `wide_mixed_width_converts`, `wide_mixed_signedness_by_value` — pairs of different widths *and* different
+  signedness also compile (same width and different signedness does not): both operands are converted to the
+  wider type, so the comparison is by value whenever the wider type is the signed one or the operand of the
+  narrower signed type is non-negative — otherwise it is the comparison after conversion to the wider unsigned
+  type, as for built-in integers.
+* `wide_mixed_width_unrepaired_refuted` — the code **as found** (`Wide.cmpMixedOrig`: the right operand implicitly
+  converted — narrowed — to the left operand's type) violated the property: kernel-checked from the witness
+  `wide_integer<200>{5} == wide_integer<300>{2^250 + 5}`; `wide_mixed_width_unrepaired_asymmetric`: the mirrored
+  comparison was correct.  Former defect class `C03.wide_mixed_width_comparison_narrows_rhs`.
 -/
 namespace Cnl.C03
 open Cnl Cnl.Spec Cnl.Layered Cnl.ScaledP Cnl.Rounding
@@ -175,5 +200,105 @@ example : Layered.cmp .lt (sc i8 (-3) 10 (-5)) (sc i32 0 10 7) = .ok true := by 
 example : PowOk i32 (0 - min (-3) 0 : Int).toNat 10 ∧ (promote i32).InRange (aligned 10 0 (min (-3) 0) 7) := by decide
 -- mixed signedness with a negative operand: the built-in comparison, not by value
 example : Layered.cmp .lt (sc i32 0 2 (-1)) (sc u32 0 2 1) = .ok false := by decide
+
+end Cnl.C03
+
+
+/-! # `wide_integer` operands of different types -/
+namespace Cnl.C03
+open Cnl Cnl.Wide Cnl.WideSpec
+open Cnl.Wide.Bridge (Val)
+
+/-- `uintwide_t`'s converting constructor from a narrower `uintwide_t` of the same limb type keeps the value
+(reduced to the destination format, which only changes a negative value going to an unsigned format) -/
+theorem wide_widening_keeps_value {f g : Wide.Fmt} {a : Limbs} (hw : 1 ≤ f.w) (hwe : f.w = g.w) (hn : 1 ≤ f.n)
+    (hle : f.n ≤ g.n) (ha : Val f a) :
+    Val g (widenCtor f g a) ∧ toInt g (widenCtor f g a) = wrapTwos g.N g.signed (toInt f a) :=
+  CmpMixed.widenCtor_spec hw hwe hn hle ha
+
+/-- the six comparisons of two multi-limb wide integers of any two limb counts (same limb type, same
+signedness) are the order of the two integers -/
+theorem wide_mixed_width_by_value {f g : Wide.Fmt} {a b : Limbs} (op : CmpOp) (hw : 1 ≤ f.w) (hwe : f.w = g.w)
+    (hs : f.signed = g.signed) (hfn : 1 ≤ f.n) (hgn : 1 ≤ g.n) (ha : Val f a) (hb : Val g b) :
+    cmpMixed f g op a b = .ok (specCmp op (toInt f a) (toInt g b)) :=
+  CmpMixed.cmpMixed_spec op hw hwe hs hfn hgn ha hb
+
+/-- the wider operand may stand on either side: `a < b` iff `b > a`, `a == b` iff `b == a`, … -/
+theorem wide_mixed_width_symmetric {f g : Wide.Fmt} {a b : Limbs} (hw : 1 ≤ f.w) (hwe : f.w = g.w)
+    (hs : f.signed = g.signed) (hfn : 1 ≤ f.n) (hgn : 1 ≤ g.n) (ha : Val f a) (hb : Val g b) :
+    cmpMixed f g .lt a b = cmpMixed g f .gt b a ∧ cmpMixed f g .le a b = cmpMixed g f .ge b a ∧
+    cmpMixed f g .eq a b = cmpMixed g f .eq b a ∧ cmpMixed f g .ne a b = cmpMixed g f .ne b a := by
+  have hgw : 1 ≤ g.w := by omega
+  simp only [CmpMixed.cmpMixed_spec _ hw hwe hs hfn hgn ha hb, CmpMixed.cmpMixed_spec _ hgw hwe.symm hs.symm hgn hfn hb ha,
+    specCmp]
+  generalize toInt f a = x
+  generalize toInt g b = y
+  refine ⟨trivial, trivial, ?_, ?_⟩ <;> congr 1 <;> rw [Bool.eq_iff_iff] <;>
+    simp only [decide_eq_true_eq] <;> constructor <;> intro h <;> omega
+
+/-- different widths, any signedness: both operands are converted to the wider format -/
+theorem wide_mixed_width_converts {f g : Wide.Fmt} {a b : Limbs} (op : CmpOp) (hw : 1 ≤ f.w) (hwe : f.w = g.w)
+    (hfn : 1 ≤ f.n) (hgn : 1 ≤ g.n) (hne : f.N ≠ g.N) (ha : Val f a) (hb : Val g b) :
+    cmpMixed f g op a b
+      = .ok (specCmp op (wrapTwos (CmpMixed.wider f g).N (CmpMixed.wider f g).signed (toInt f a))
+                        (wrapTwos (CmpMixed.wider f g).N (CmpMixed.wider f g).signed (toInt g b))) :=
+  CmpMixed.cmpMixed_converts op hw hwe hfn hgn hne ha hb
+
+/-- different widths and different signedness: by value when the wider format is the signed one or the operand
+of the narrower format is non-negative, with the wider operand on either side -/
+theorem wide_mixed_signedness_by_value {f g : Wide.Fmt} {a b : Limbs} (op : CmpOp) (hw : 1 ≤ f.w) (hwe : f.w = g.w)
+    (hfn : 1 ≤ f.n) (hgn : 1 ≤ g.n) (hlt : f.N < g.N) (hs : f.signed ≠ g.signed) (ha : Val f a) (hb : Val g b)
+    (hv : g.signed = true ∨ 0 ≤ toInt f a) :
+    cmpMixed f g op a b = .ok (specCmp op (toInt f a) (toInt g b))
+    ∧ cmpMixed g f op b a = .ok (specCmp op (toInt g b) (toInt f a)) :=
+  CmpMixed.cmpMixed_mixed_signedness op hw hwe hfn hgn hlt hs ha hb hv
+
+/-- through the storage rule: `wide_integer<dl, nl> OP wide_integer<dr, nr>` with multi-limb storage on both
+sides (narrowest types of the same width and signedness) compares the values, whatever the two digit counts -/
+theorem wide_mixed_width_values {dl dr : Nat} {nl nr : IntTy} {f g : Wide.Fmt} (op : CmpOp) {l r : Int}
+    (hb : 1 ≤ nl.bits) (hbe : nl.bits = nr.bits) (hs : nl.signed = nr.signed)
+    (hf : storage dl nl = .multi f) (hg : storage dr nr = .multi g)
+    (hl : InRange f.N f.signed l) (hr : InRange g.N g.signed r) :
+    wideCmp dl nl dr nr op l r = .ok (specCmp op l r) :=
+  CmpMixed.wideCmp_multi op hb hbe hs hf hg hl hr
+
+/-! ## the comparison as found -/
+
+/-- `wide_integer<200, int>` and `wide_integer<300, int>`: 7 and 10 limbs of 32 bits -/
+example : storage 200 i32 = .multi ⟨32, 7, true⟩ ∧ storage 300 i32 = .multi ⟨32, 10, true⟩ := by decide
+
+/-- as found, `wide_integer<200>{5} == wide_integer<300>{2^250 + 5}` (and `<=`, `>=`; not `<`) -/
+theorem wide_mixed_width_unrepaired_refuted :
+    wideCmpOrig 200 i32 300 i32 .eq 5 (2^250 + 5) = .ok true
+    ∧ wideCmpOrig 200 i32 300 i32 .lt 5 (2^250 + 5) = .ok false
+    ∧ ¬ (∀ (f g : Wide.Fmt) (a b : Limbs), 1 ≤ f.w → f.w = g.w → f.signed = g.signed → 1 ≤ f.n → 1 ≤ g.n → Val f a → Val g b →
+          cmpMixedOrig f g .eq a b = .ok (specCmp .eq (toInt f a) (toInt g b))) := by
+  refine ⟨by decide +kernel, by decide +kernel, fun h => ?_⟩
+  have h' := h ⟨32, 7, true⟩ ⟨32, 10, true⟩ (encode ⟨32, 7, true⟩ 5) (encode ⟨32, 10, true⟩ (2^250 + 5))
+    (by decide) rfl rfl (by decide) (by decide)
+    ⟨Basic.ofNat_WF _ _ _, Basic.ofNat_length _ _ _⟩ ⟨Basic.ofNat_WF _ _ _, Basic.ofNat_length _ _ _⟩
+  revert h'
+  decide +kernel
+
+/-- as found, the mirrored comparison (wider operand on the left) was correct; the repaired code is correct both ways -/
+theorem wide_mixed_width_unrepaired_asymmetric :
+    wideCmpOrig 300 i32 200 i32 .eq (2^250 + 5) 5 = .ok false
+    ∧ wideCmp 200 i32 300 i32 .eq 5 (2^250 + 5) = .ok false
+    ∧ wideCmp 200 i32 300 i32 .lt 5 (2^250 + 5) = .ok true
+    ∧ wideCmp 300 i32 200 i32 .gt (2^250 + 5) 5 = .ok true := by
+  refine ⟨by decide +kernel, by decide +kernel, by decide +kernel, by decide +kernel⟩
+
+/-! Non-vacuity -/
+
+-- -5 (7 limbs) versus 2^250 - 5 (10 limbs), and a negative value widened
+example : cmpMixed ⟨32, 7, true⟩ ⟨32, 10, true⟩ .lt (encode ⟨32, 7, true⟩ (-5)) (encode ⟨32, 10, true⟩ (2^250 - 5)) = .ok true := by
+  decide +kernel
+example : toInt ⟨32, 10, true⟩ (widenCtor ⟨32, 7, true⟩ ⟨32, 10, true⟩ (encode ⟨32, 7, true⟩ (-5))) = -5 := by decide +kernel
+-- unsigned narrower operand, signed wider operand: by value
+example : cmpMixed ⟨8, 17, false⟩ ⟨8, 20, true⟩ .gt (encode ⟨8, 17, false⟩ (2^135)) (encode ⟨8, 20, true⟩ (-1)) = .ok true := by
+  decide +kernel
+-- same width, different signedness: ill-formed (ambiguous conversion), before and after the repair
+example : cmpMixed ⟨32, 7, true⟩ ⟨32, 7, false⟩ .eq (encode ⟨32, 7, true⟩ 5) (encode ⟨32, 7, false⟩ 5)
+    = .ill "no (unambiguous) conversion between the two uintwide_t types" := by decide +kernel
 
 end Cnl.C03
